@@ -77,6 +77,18 @@ DECIDING = [
 BRANCHES = ["representing_distribution:add", "representing_distribution:eliminate", "_check_sample_elimination:resample"]
 BUDGET = {"quick": (4, 45, 36000), "thorough": (16, 120, 400000)}
 
+
+def applicable(deciding, branches, m):
+    """the 'represent:*' tallies and the resample branch describe situations of the present correction algorithm
+    (random top-up / elimination draws checked by the private helper _check_sample_elimination).  A tree that corrects
+    the rounded shares another way never enters them; there they are not required (the size / support oracle on the
+    public function, the long and many-shot variants and the add / eliminate situations stay deciding)"""
+    calls = m["reach_calls"].get("_check_sample_elimination")
+    if calls:
+        return deciding, branches
+    return ([d for d in deciding if not d.startswith("represent:")],
+            [b for b in branches if not b.startswith("_check_sample_elimination:")])
+
 BIG = 2 ** 53
 
 
